@@ -358,13 +358,34 @@ def _run2(stmts, env, events, assumptions, on_call):
 # checked again at the end of the iteration.  Values the domain cannot express (division, modulo, calls) become opaque
 # symbols; an obligation that depends on one is *unknown*, never a failure.
 
+class Restart(Exception):
+    pass
+
+
 class Choice(Exception):
     def __init__(self, node):
         self.node = node
 
 
-def analyse_copy(body, src_param, size_param, is_avail, is_cursor, classify_call, av_key, mp_key, max_runs=200):
-    """Returns (problems, returns, notes): problems = [(line, text, definite)], returns = [(G, assumptions, decided)]"""
+def analyse_copy(body, src_param, size_param, is_avail, is_cursor, classify_call, av_key, mp_key, max_runs=200, capacity=None):
+    """Returns (problems, returns, notes): problems = [(line, text, definite)], returns = [(G, assumptions, decided)]
+
+    Loop invariants: `source expression == str + G` and `remainder expression == size - G` for the expressions the loop
+    itself names (memcpy source, the partner of m_avail in the condition or in std::min) are *demanded* - a loop that
+    breaks them is reported.  Every other variable a loop writes gets a *candidate* invariant of one of the forms
+    `x == x0`, `x == x0 + (G - G0)`, `x == x0 - (G - G0)` (x0, G0: the values on entry), tried in that order; a candidate
+    is assumed at the head of an arbitrary iteration and must be re-established by every path that goes round, else it
+    is dropped and the whole analysis starts again (Houdini).  What is finally assumed holds on entry by construction
+    and is preserved, hence is an invariant.  `capacity`: the value flush_buffer leaves in m_avail, if known."""
+    form_idx = {}
+    while True:
+        try:
+            return _analyse_copy(body, src_param, size_param, is_avail, is_cursor, classify_call, av_key, mp_key, max_runs, capacity, form_idx)
+        except Restart:
+            continue
+
+
+def _analyse_copy(body, src_param, size_param, is_avail, is_cursor, classify_call, av_key, mp_key, max_runs, capacity, form_idx):
     problems = []
     returns = []
     notes = []
@@ -375,6 +396,10 @@ def analyse_copy(body, src_param, size_param, is_avail, is_cursor, classify_call
 
     def opaque(l):
         return any("@" in s_ for s_ in l.symbols())
+
+    def havoc(l):
+        """mentions a value some loop left unconstrained: no invariant was found for it, so nothing is known"""
+        return any("~" in s_ for s_ in l.symbols())
 
     def problem(line, text, definite):
         k_ = (line, text)
@@ -463,7 +488,7 @@ def analyse_copy(body, src_param, size_param, is_avail, is_cursor, classify_call
             return True
         if kind == "flush":
             st.env[mp_key] = Lin.sym("buffer-start")
-            st.env[av_key] = Lin.sym("buffer-capacity")
+            st.env[av_key] = Lin(capacity) if capacity is not None else Lin.sym("buffer-capacity")
             return True
         return False
 
@@ -494,7 +519,7 @@ def analyse_copy(body, src_param, size_param, is_avail, is_cursor, classify_call
                     problem(u.get("l", 0), "a copy is not followed by update_buffer before the function returns", True)
                 d = st.G - SIZE
                 sg = sign_of(d, st.asm)
-                returns.append((st.G, st.asm, True if sg == "==0" else (None if opaque(d) else False)))
+                returns.append((st.G, st.asm, True if sg == "==0" else (None if opaque(d) or havoc(d) else False)))
                 return "return"
             elif k == "Decl":
                 for v in u.get("vars", []):
@@ -558,6 +583,8 @@ def analyse_copy(body, src_param, size_param, is_avail, is_cursor, classify_call
             return "stop" if r in ("end", "continue") else ("end" if r == "break" else r)
         # ---- arbitrary iteration: havoc what the loop writes, assume the invariants
         written = set(ir.written_locals(lp)) | {av_key, mp_key}
+        entry = dict((key, st.env.get(key, Lin.sym(key))) for key in written)
+        G0 = st.G
         # (loop tags are numbered per run: the same path has to produce the same symbols when it is re-run under a refined
         # assumption, or the assumption recorded for `avail~3 - ..` never matches the `avail~5 - ..` of the next attempt)
         tagn[0] += 1
@@ -586,6 +613,17 @@ def analyse_copy(body, src_param, size_param, is_avail, is_cursor, classify_call
             solve(src_e, SRC + Gh)
         if rem_e is not None:
             solve(rem_e, SIZE - Gh)
+        assumed = []
+        for key in sorted(written):
+            if st.env[key] != Lin.sym(key + tag):
+                continue               # already determined by a demanded invariant
+            fi = form_idx.get((id(lp), key), 0)
+            if fi > 2:
+                continue
+            sgn = (0, 1, -1)[fi]
+            c = entry[key] - G0.scale(sgn)
+            st.env[key] = c + Gh.scale(sgn)
+            assumed.append((key, sgn, c))
         if k != "Do" and lp.get("cond") is not None and not truth(lp["cond"], st):
             return "end"               # the loop is left from an arbitrary iteration: go on with what follows
         r = run(body, st)
@@ -593,6 +631,11 @@ def analyse_copy(body, src_param, size_param, is_avail, is_cursor, classify_call
             return "end"
         if r == "return":
             return r
+        for key, sgn, c in assumed:
+            d = st.env.get(key, Lin.sym(key)) - (c + st.G.scale(sgn))
+            if d != Lin(0) and sign_of(d, st.asm) != "==0":
+                form_idx[(id(lp), key)] = form_idx.get((id(lp), key), 0) + 1
+                raise Restart()
         # invariants preserved?
         if src_e is not None:
             d = evx(src_e, st) - (SRC + st.G)
@@ -622,7 +665,7 @@ def analyse_copy(body, src_param, size_param, is_avail, is_cursor, classify_call
             if r == "end":
                 d = st.G - SIZE
                 sg = sign_of(d, st.asm)
-                returns.append((st.G, st.asm, True if sg == "==0" else (False if not opaque(d) else None)))
+                returns.append((st.G, st.asm, True if sg == "==0" else (False if not (opaque(d) or havoc(d)) else None)))
         except NeedSplit as ns:
             cur = sign_of(ns.d, asm)
             options = {None: ("<0", ">=0"), ">=0": ("==0", ">0"), "<=0": ("<0", "==0"), "!=0": ("<0", ">0")}.get(cur)
